@@ -204,6 +204,21 @@ pub fn scenarios(prop: &str, tier: Tier) -> Vec<Box<dyn Scenario>> {
                 ),
             ]
         }
+        "C12" => {
+            use Spec::*;
+            let mon = Monitors { c12: true, c01: true, ..Monitors::default() };
+            let l = if q { 5 } else { 7 };
+            let ops = Ops { write: true, observe: true, drop_obs: true, drop_handle: true, drop_var_handle: true, drop_state: true, ..Ops::default() };
+            let c = |name: &str, specs: Vec<Spec>, observable: Vec<usize>, len: usize| -> Box<dyn Scenario> {
+                Box::new(WorldScn(WorldCfg { name: format!("C12/{name}"), specs, late_specs: vec![], observable, pinned: vec![], max_obs: 1, max_subs: 0, observe_at_start: vec![], cut_nodes: vec![], cut_kinds: vec![], cut_eq: false, len, ops: ops.clone(), mon: mon.clone() }))
+            };
+            vec![
+                c("chain_self_map2", vec![Var, Map(0), Map2(1, 1)], vec![2, 1], l),
+                c("bind_returns_own_input", vec![Var, Var, Bind { lhs: 0, then: Rhs::Node(0), els: Rhs::Node(1) }], vec![2], l),
+                c("bind_fresh", vec![Var, Var, Bind { lhs: 0, then: Rhs::FreshMapCap(1), els: Rhs::Node(1) }], vec![2, 1], l),
+                c("mapref_fold", vec![PVar, Fst(0), Var, Fold(vec![1, 2, 1])], vec![3], l),
+            ]
+        }
         "C13" => {
             use Spec::*;
             let mon = Monitors { c13: true, ..Monitors::default() };
@@ -344,6 +359,19 @@ pub fn meta(prop: &str, tier: Tier) -> PropMeta {
             assumptions: common_assume,
             rule: "as C01",
             must_cover: vec!["write-from-node-function", "write-from-update-handler", "var-handle-dropped-with-write-armed", "deferred-write-on-var-whose-last-handle-was-dropped"],
+        },
+        "C12" => PropMeta {
+            level: "other",
+            functions: {
+                let mut e = engine;
+                e.push("Drop for public::{Var, Observer}, State::{destroy, drop}, ExpertNode::drop, Var::break_rc_cycle, dead_vars handling in stabilise_end");
+                e
+            },
+            bounds: format!("4 world templates (self-map2, bind returning its own input, bind building a capturing node, map_ref + fold with duplicate input) plus hand-written programs (var of var, expert join); every history of {} actions from {{drop a node handle (also var watch nodes), drop a Var handle, drop an observer, drop the state, observe, write, stabilise}}; every closure captures a drop-counting guard and every node is probed through a WeakIncr. After each stabilise: every node unreachable from the live handles is released and its guard fired exactly once; at the end everything left is dropped and everything must be released. Mostly structural: exhaustive bounded path coverage, the solver only keeps cutoff/bind branches consistent. Both build profiles", l(5, 7)),
+            outside: common_outside,
+            assumptions: common_assume,
+            rule: "as C01",
+            must_cover: vec!["state-dropped-before-handles", "leak-check-after-stabilise"],
         },
         "C13" => PropMeta {
             level: "other",
